@@ -537,11 +537,11 @@ PROP = Prop(
           "whose fingerprint equals the empty-slot marker; large: default-sized and bigger structures of every family (cuckoo tables up to ~260 000 slots, after an expansion). Every class is exported through all its channels and loaded through its own class. "
           "Every case is non-trivial (one state, 2-4 loaders); distinct by hash of (parameters, operations)."),
     workloads=[
-        Workload("bloom", wl_bloom, quick=500, thorough=40000),
+        Workload("bloom", wl_bloom, quick=500, thorough=120000),
         Workload("ondisk", wl_ondisk, quick=200, thorough=15000),
         Workload("expanding", wl_expanding, quick=400, thorough=30000),
-        Workload("sketch", wl_sketch, quick=600, thorough=40000),
-        Workload("cuckoo", wl_cuckoo, quick=600, thorough=40000),
+        Workload("sketch", wl_sketch, quick=600, thorough=120000),
+        Workload("cuckoo", wl_cuckoo, quick=600, thorough=120000),
         Workload("large", wl_large, quick=18, thorough=600),
     ],
     assumptions=["what the format does not store is re-supplied: hash function, cuckoo fingerprint width (setter or error rate) and expansion settings, rotating queue limit, "
